@@ -137,6 +137,7 @@ func (st *objectDeletionState) GetQueued() (ids []string) {
 	for id := range st.queued {
 		ids = append(ids, id)
 	}
+	verifOrder("deletionstate.GetQueued", ids)
 	return
 }
 
